@@ -244,6 +244,7 @@ package gorm
 //@   ensures not-a-transaction: drvCommits == old(drvCommits) ==> db.Error != nil
 //@   ensures error-kept: old(db.Error) != nil ==> db.Error != nil
 //@   ensures same-handle: result == db
+//@   ensures still-chain-in-progress: result.clone <= 0 && result.Statement.DB == result && result.Statement == old(db.Statement)
 
 //@ func (*DB).Rollback
 //@   tags C04 C05
@@ -252,6 +253,7 @@ package gorm
 //@   ensures error-recorded: drvRollbacks == old(drvRollbacks) + 1 && drvRollbackErr != 0 ==> db.Error != nil
 //@   ensures error-kept: old(db.Error) != nil ==> db.Error != nil
 //@   ensures same-handle: result == db
+//@   ensures still-chain-in-progress: result.clone <= 0 && result.Statement.DB == result && result.Statement == old(db.Statement)
 
 //@ # ---------- C14: lock discipline of the prepared-statement cache (premises of the monitor argument) ----------
 //@ ghost held inserted closes prepares spawned prepErr evicted ranged waited usable protectedMap
@@ -506,6 +508,7 @@ package gorm
 //@   when db.clone <= 0 && db.Statement.DB == db
 //@   modifies db.Statement.Model, db.Statement.Table, db.Statement.TableExpr, db.Statement.Omits, db.Statement.ColumnMapping, db.Statement.Preloads, db.Statement.attrs, db.Statement.assigns, db.Statement.Unscoped, db.Statement.SQL, db.Statement.Vars, db.Statement.Dest, db.Statement.Joins, db.Statement.scopes, db.Statement.Joins[*], db.Statement.scopes[*], db.Statement.Clauses[*], db.Statement.Preloads[*], db.Error
 //@   ensures same-handle: result == db
+//@   ensures still-chain-in-progress: result.clone <= 0 && result.Statement.DB == result && result.Statement == old(db.Statement)
 //@   ensures keeps-skiphooks: result.Statement.SkipHooks == old(db.Statement.SkipHooks) [C13]
 //@   ensures keeps-context: result.Statement.Context == old(db.Statement.Context) [C18]
 //@   ensures keeps-connpool: result.Statement.ConnPool == old(db.Statement.ConnPool) [C05]
